@@ -63,6 +63,15 @@ def replay_file(pid, path, seed):
             for r in doc["records"]:
                 f.write(json.dumps(r) + "\n")
         run.replay([tmp], "replay file")
+        if str(doc.get("variant", "")).startswith("miri:"):
+            # the violation was observed by the interpreter (debug build, UB checks): replay there too
+            sums, fails = core.miri_replay([tmp], shards=1)
+            for s in sums:
+                for mm in s["mismatches"]:
+                    run.add_violation({"kind": "vector", "detail": dict(mm, variant="miri:" + str(mm.get("variant"))), "records": [mm.get("rec")]})
+            for f, rc, out in fails:
+                run.add_violation({"kind": "vector", "records": doc["records"][:1],
+                                   "detail": {"variant": "miri:undefined-behaviour", "monitor": core.tail(out, 12)}})
     elif doc["kind"] == "trace":
         first = doc["first"]
         run.seed = 0
